@@ -56,7 +56,7 @@ def check_codec(chk, tier: str, pool, f_model) -> None:
               f'vacuous: a collision class has no minimal counter-example in the model: {design}')
   vals = data['vals']
   chk.require(len(vals) == model['values'][0] > 500, 'export incomplete')
-  nconc = 2 if tier == 'quick' else 3
+  nconc = 2        # concretisations per value (which ones depends on the seed)
   rows = []
   for vi, e in enumerate(vals):
     for c in range(nconc):
